@@ -40,3 +40,8 @@ CLAIMED['C10'] = dict(
          'write sequence header/data/footer, data length = stated blocks, copied cells/blocks = source cells/blocks of the widened box, regenerated header words, '
          'footer arrays = source values of the box at the stride of the file version.',
     note='coordinate front end (get_index_range) not under contract; mk_reader object state assumed; AX-FILE for the output handle')
+CLAIMED['C13'] = dict(
+    text='Proof of the subscript semantics of the accessors (ordinal slices/ints with negative wrap; line-number slices with all default combinations on ascending and '
+         'descending axes; len) against spec functions transcribed from segyio/CPython. Value structure (shapes, header dict contents, bin/text, attributes, tools, subvolume) '
+         'is not covered by this check.',
+    note='AX-SEGYIO-ACC transcription (hash pinned); values_function abstract; line numbers >= 1')
